@@ -9,6 +9,7 @@ import (
 	"panmc/internal/core"
 	"panmc/internal/panrun"
 
+	_ "panmc/checks/c01"
 	_ "panmc/checks/c02"
 	_ "panmc/checks/c03"
 	_ "panmc/checks/c04"
